@@ -23,7 +23,12 @@ size_t vf_wl_len;
 #define VF_WL_BCAST_PRE (vf_ba->counter == vf_ba->num_waiters && vf_wl_len + 1 == vf_ba->num_waiters)
 #define vf_wl_len vf_wl_len
 #include "contracts/waitlist_thin.h"
+/* the release of the barrier's memory is observed: was the barrier lock held at that moment? */
+static unsigned vf_n_bfree; static void *vf_bfree_ptr; static int vf_bfree_locked;
+static void vf_bfree(void *p) { vf_n_bfree++; vf_bfree_ptr = p; vf_bfree_locked = (vf_lock_held == 1 && vf_lock_which == &vf_ba->lock); }
+#define ABTU_free vf_bfree
 #include <barrier.c>
+#undef ABTU_free
 
 static ABTI_barrier ba;
 static ABTI_xstream xs;
@@ -83,4 +88,19 @@ void h_barrier_misc(void)
     ABT_barrier nb = (ABT_barrier)0x77;
     VF_ASSERT(ABT_barrier_create(0, &nb) == ABT_ERR_INV_ARG && nb == ABT_BARRIER_NULL, "create(0) rejected, handle set to NULL (1.x API)");
     VF_REACH("misc");
+}
+
+/* ABT_barrier_free: the arrival that completes a round holds the barrier lock from its count-up until it has woken the
+ * others and reset the counter; a released waiter may call free at once.  The structure may therefore be released only
+ * AFTER its lock was acquired (that is the only thing that waits for the last arrival to leave the barrier). */
+void h_barrier_free(void)
+{
+    setup(); vf_n_bfree = 0; vf_bfree_ptr = NULL; vf_bfree_locked = 0; unsigned a0 = vf_acquires;
+    int nul; ABT_barrier h = nul ? ABT_BARRIER_NULL : (ABT_barrier)&ba;
+    int r = ABT_barrier_free(&h);
+    if (nul) { VF_ASSERT(r == ABT_ERR_INV_BARRIER && vf_n_bfree == 0 && vf_acquires == a0 && h == ABT_BARRIER_NULL, "NULL handle rejected, nothing released"); VF_REACH("free NULL"); return; }
+    VF_ASSERT(r == ABT_SUCCESS && h == ABT_BARRIER_NULL, "freed: handle set to ABT_BARRIER_NULL");
+    VF_ASSERT(vf_n_bfree == 1 && vf_bfree_ptr == (void *)&ba, "the barrier structure is released exactly once");
+    VF_ASSERT(vf_acquires == a0 + 1 && vf_bfree_locked, "... and only while holding the barrier lock: a last arrival still inside ABT_barrier_wait (it holds the lock until it has reset the counter) is waited for");
+    VF_REACH("barrier free");
 }
